@@ -22,7 +22,7 @@ def run_graph(sc):
                                    idx_kind=sc.get("idx_kind", "int"))
     # a second model of the StaticShunt group on the same bus as the Shunt (lookups must cover both models)
     for b in sc.get("shuntsw", []):
-        bid = b if sc.get("idx_kind", "int") == "int" else "B%d" % b
+        bid = netbuild.bus_id(b, n, sc.get("idx_kind", "int"))
         spec["devices"].append(dict(model="ShuntSw", idx="SW%d" % b, bus=bid, Vn=110.0, gs="0", bs="0.01", ns="2"))
     ev = []
     ss, ids, ok = netbuild.build(spec)
@@ -30,7 +30,7 @@ def run_graph(sc):
         # a system without any branch: connectivity() is documented for systems with series devices
         return dict(meta=dict(tid=sc["tid"], sid=sc["sid"]), ev=[])
     pos = {idx: k for k, idx in enumerate(ss.Bus.idx.v)}
-    bus_pos = lambda i: pos[i if sc.get("idx_kind", "int") == "int" else "B%d" % i]   # noqa
+    bus_pos = lambda i: pos[netbuild.bus_id(i, n, sc.get("idx_kind", "int"))]   # noqa
     raised = None
     try:
         ss.connectivity(info=False)
@@ -78,7 +78,7 @@ def run_graph(sc):
         off_pos = []
         try:
             for b in sc["off"]:
-                bid = b if sc.get("idx_kind", "int") == "int" else "B%d" % b
+                bid = netbuild.bus_id(b, n, sc.get("idx_kind", "int"))
                 off_pos.append(bus_pos_of(ss2, bid))
                 if sc.get("via", "alter") == "alter":
                     ss2.Bus.alter("u", bid, 0)
@@ -87,7 +87,7 @@ def run_graph(sc):
             if sc.get("rewrite"):
                 # a status written again with the value it already has (applying a status vector bus by bus) changes nothing
                 for b in range(1, n + 1):
-                    bid = b if sc.get("idx_kind", "int") == "int" else "B%d" % b
+                    bid = netbuild.bus_id(b, n, sc.get("idx_kind", "int"))
                     ss2.Bus.alter("u", bid, 0 if b in sc["off"] else 1)
             ss2.PFlow.init()
         except Exception as ex:
